@@ -432,7 +432,50 @@ def r5_hash_index(ctx, cfg):
     ctx.floor(rule, n_sites, cfg.get("filter_floor", 4), "accesses to %s.%s" % (ty, fld))
 
 
+def r7_merge_precedence(ctx, cfg):
+    """flush (merge of the update section into the sorted section): for EVERY update key - additions and delete tombstones alike -
+    the sorted entry with the same key is skipped. A path through the loop body that bypasses the equal-key test copies the old
+    sorted entry into the merged section: a removed key comes back at its old location after the next flush."""
+    from .c12 import every_iteration
+    rule = "C05.R7"
+    ctx.rule(rule, "flush_updates_for_bucket: the equal-key test that drops the superseded sorted entry lies on every iteration path of the "
+                   "loop over the updates (tombstones included)")
+    b = find_method(ctx, rule, "IndexManager", "flush_updates_for_bucket")
+    if not b:
+        return
+    ctx.saw(b)
+    nxs = [c for c in b.calls if re.search(r"\bIterator>?::next$", c.orig_name or c.name) and re.search(r"btree|BTreeMap|hash_map|HashMap", c.full)]
+    if not ctx.anchor(rule, nxs, "loop over the de-duplicated updates (map iterator)"):
+        return
+    nx = nxs[0]
+    body_blocks = b.reachable(b.succ[nx.bb])
+    eqs = []
+    for c in b.calls:
+        if c.bb in body_blocks and nx.bb in b.reachable(b.succ[c.bb]) and re.search(r"PartialEq.*>?::eq$|::eq$", c.orig_name or c.name):
+            flds = set()
+            for a in c.args:
+                if op_local(a) is not None:
+                    for f in Slice(b, [op_local(a)], transparent=True).fields:
+                        flds |= set(f)
+            if "key" in flds and "entries" in flds:
+                eqs.append(c)
+    if not ctx.anchor(rule, eqs, "comparison of the sorted entry's key with the update key (==) inside the merge loop"):
+        return
+    def gate_of(e):
+        # `idx < len && entries[idx].key == key`: the bounds test that short-circuits the comparison is the gate; running off the end of
+        # the sorted section is the one legitimate way not to compare
+        cands = [i for i, j, st in b.stmts() if i in body_blocks and i != e.bb and st["r"]["k"] == "Bin" and st["r"]["op"] in ("Lt", "Gt", "Le", "Ge")
+                 and b.dominates(i, e.bb)]
+        return max(cands, key=lambda g: len(b.dom.get(g, ()))) if cands else e.bb
+    ok = any(every_iteration(b, nx, e.bb) or every_iteration(b, nx, gate_of(e)) for e in eqs)
+    ctx.check(ok, rule, [b.id, "equal-key-test-every-update"], "every update key is matched against the sorted section",
+              "flush_updates_for_bucket has a path through the merge loop (a `continue` for some kind of update) that never compares the update key with the "
+              "current sorted key: the superseded sorted entry is copied into the merged section - after the flush a removed key is found again at its old location",
+              eqs[0].loc(), sample={"loop": nx.loc(), "eq": [e.loc() for e in eqs]})
+
+
 def run(ctx, cfg=CFG):
+    r7_merge_precedence(ctx, cfg)
     r1_append_consumed(ctx, cfg)
     r2_flush_retry(ctx, cfg)
     r3_precedence(ctx, cfg)
